@@ -60,6 +60,7 @@ type Obligation struct {
 // FnCtx is the verification context of one function under contract: all
 // obligations, assumptions and declarations generated from it.
 type FnCtx struct {
+	touchedGhost map[string]bool // when non-nil: names of ghost cells touched (havocGhostsForCall)
 	frame *frameInfo // modifies clause of the function under verification (nil: no frame check)
 	eng     *Engine
 	root    *ssa.Function
@@ -105,6 +106,9 @@ type FnCtx struct {
 func (fx *FnCtx) ghostCell(st *State, name string, sh *Shape, init Val) *Cell {
 	if fx.ghost == nil {
 		fx.ghost = map[string]*Cell{}
+	}
+	if fx.touchedGhost != nil {
+		fx.touchedGhost[name] = true
 	}
 	c, ok := fx.ghost[name]
 	if !ok {
